@@ -99,16 +99,17 @@ def analyse_ensemble(chains, S=2.0, tau_exp=0.0, N_sigma=1.0, force_W=None, rel_
             crit = rho[n] - N_sigma * dr[n]
             tol = rel_margin * (abs(rho[n]) + abs(N_sigma * dr[n])) + 1e-12
             cap = n >= w_max // 2 - 2
-            if force_W is not None:
-                stop = (n == force_W)
-            else:
-                stop = crit < 0 or cap
-            if abs(crit) <= tol or crit < 0 or cap:
+            definite = crit < -tol or cap
+            borderline = abs(crit) <= tol and not cap
+            if definite or borderline:
                 adm.add(n)
-            if stop:
+            if force_W is not None:
+                if n == force_W and (definite or borderline):
+                    W = n
+                    break
+            elif W is None and (crit < 0 or cap):
                 W = n
-                break
-            if crit < -tol:
+            if definite:
                 break
         if W is None:
             raise Borderline('forced window not reachable')
@@ -116,7 +117,8 @@ def analyse_ensemble(chains, S=2.0, tau_exp=0.0, N_sigma=1.0, force_W=None, rel_
         tau = ntau[n] * (1 + (2 * n + 1) / N) / (1 + 1 / N) + tau_exp * abs(rho[n + 1])
         dtau = math.sqrt(ndtau[n] ** 2 + tau_exp ** 2 * dr[n + 1] ** 2)
         dv = math.sqrt(2 * tau * Gamma[0] * (1 + 1 / N) / N)
-        res.update(tauint=tau, dtauint=dtau, dvalue=dv, ddvalue=dv * math.sqrt((n + 0.5) / N), W=n, drho=dr)
+        res.update(tauint=tau, dtauint=dtau, dvalue=dv, ddvalue=dv * math.sqrt((n + 0.5) / N), W=n,
+                   drho={k: v for k, v in dr.items() if k <= n + 1})
     elif S == 0:
         dv = math.sqrt(Gamma[0] / (N - 1))
         res.update(tauint=0.5, dtauint=0.0, dvalue=dv, ddvalue=dv * math.sqrt(0.5 / N), W=0, drho={})
@@ -130,16 +132,17 @@ def analyse_ensemble(chains, S=2.0, tau_exp=0.0, N_sigma=1.0, force_W=None, rel_
             g = a - b
             tol = rel_margin * (abs(a) + abs(b)) + 1e-13
             cap = n >= w_max - 1
-            if force_W is not None:
-                stop = (n == force_W)
-            else:
-                stop = g < 0 or cap
-            if abs(g) <= tol or g < 0 or cap:
+            definite = g < -tol or cap
+            borderline = abs(g) <= tol and not cap
+            if definite or borderline:
                 adm.add(n)
-            if stop:
+            if force_W is not None:
+                if n == force_W and (definite or borderline):
+                    W = n
+                    break
+            elif W is None and (g < 0 or cap):
                 W = n
-                break
-            if g < -tol:
+            if definite:
                 break
         if W is None:
             if w_max <= 1:
